@@ -51,7 +51,10 @@ class S(vlib.Spec):
     ]
 
     def producer_args(self, ctx):
-        return ["-seed", str(ctx.seed), "-tier", ctx.tier, "-out", ctx.out, "-thriftgo", ctx.thriftgo, "-jobs", "4"]
+        a = ["-seed", str(ctx.seed), "-tier", ctx.tier, "-out", ctx.out, "-thriftgo", ctx.thriftgo, "-jobs", "4"]
+        if ctx.tier == "quick":
+            a += ["-bases", "8", "-per-base", "20"]     # + corpus (31 cases) + the 8 unmodified programs
+        return a
 
     @staticmethod
     def _cfg(r):
